@@ -1,5 +1,6 @@
+\* value type = computation type (i64 isize scaled), at most 8 elements (the scaled 2^62)
 CONSTANTS BODY = "B"  TNEG = 16  TMAX = 15  CNEG = 16  CMAX = 15  BNEG = 16  BHI = 15
-          MAXELEMS = 8  MAXPEERS = 6  REVERSED = FALSE  NEARMAX = TRUE  WRAPPED = TRUE
+          MAXELEMS = 8  MAXPEERS = 6  FIX_REVERSED = TRUE  FIX_CLAMP_START = TRUE  WRAPPED = TRUE
 SPECIFICATION Spec
 INVARIANTS C15_Range
 CHECK_DEADLOCK FALSE
